@@ -116,6 +116,25 @@ def check(ctx):
         ctx._record_violation(ob)
     else:
         ctx.undecided.append('%s: no result (rc=%s) %s' % (name, rc, (out + err)[-300:]))
+    # API-level check on documents generated from the specification: content that the tables say is not available in a version
+    # must be rejected by strict loading in that version (oracle: the version masks, not the loader)
+    ndocs = '1000000' if thorough else '30000'
+    rc, out, err, secs = run([b, 'api', 'holes', ndocs], timeout=3000)
+    ctx.t('native-enum', secs)
+    line = (out.strip().splitlines() or [''])[-1]
+    name = 'native/api-version-holes'
+    bound = 'one minimal document per version-dependent sub-element / attribute / attribute value / character-data value of the specification (budget %s candidates), relabelled to every declared version in which the tables do not list that content' % ndocs
+    if line.startswith('OK'):
+        ctx.add(Obligation(ctx.prop, name, 'native-eval', 'bounded', 'discharged', seconds=secs, bound=bound,
+                           detail='strict loading rejects content that is not available in the file version; lenient loading warns or fails; strict error == first lenient warning [%s]' % line))
+    elif line.startswith('FAIL'):
+        msg, _, dochex = line[5:].partition(' :: document ')
+        ob = ctx.add(Obligation(ctx.prop, name, 'native-eval', 'bounded', 'failed', seconds=secs, bound=bound, detail=msg))
+        ob.witness = dict(input_hex=dochex.strip(), input_text=bytes.fromhex(dochex.strip()).decode('utf-8', 'replace'), observed=msg, via='public API: AutosarModel::load_buffer(strict=true|false); oracle: version masks of the specification tables',
+                          replay=['api', 'mustfail1' if msg.startswith('strict loading accepts') else 'strictlenient1', dochex.strip()])
+        ctx._record_violation(ob)
+    else:
+        ctx.undecided.append('%s: no result (rc=%s) %s' % (name, rc, (out + err)[-300:]))
     return ctx.finish(
         explanation='The statement is a 2-safety property of the whole parser. Its mechanism is a single funnel: every recoverable finding goes through optional_error (directly or via check_version), the only reader of `strict`. Complete Kani harnesses discharge the contracts of optional_error, error and check_version (both modes, all masks, all versions). Frame conditions that need no solver are checked on the code text: `strict` is read only in optional_error, every funnel call propagates its Result with `?`, `warnings` is mutated only in optional_error. From these, "strict fails with the first lenient warning and both agree when there is none" follows by a non-interference argument that is NOT machine-checked. As a bounded stand-in for it, the public API is run strict and lenient on a corpus of defect documents and their single-byte mutations. Not covered: that each constraint class is enforced in every element context and version (parse_element call sites, element graph).',
         checker_cmd='cargo kani --harness funnel_optional_error --harness funnel_error --harness funnel_check_version; frame scan of parser.rs; vxnative api strictlenient <corpus> 1',
